@@ -1,5 +1,5 @@
 (* C02 - method rows are exactly what the place notation defines. *)
-From Wh Require Import Prelude Permute PN Gens PermuteP GensP CallsP FactsP.
+From Wh Require Import Prelude Permute PN Gens PermuteP GensP CallsP FactsP PNP.
 
 (* with no call pending or in progress, the k-th row is the start row transformed by the first k
    changes of the notation read cyclically from the start index: all k, all start indices
@@ -25,3 +25,26 @@ Theorem C02_grandsire_facts : forallb grandsire_ok (seq 5 12) = true.
 Proof. exact grandsire_facts. Qed.
 Theorem C02_stedman_facts : forallb stedman_ok [5; 7; 9; 11; 13; 15] = true.
 Proof. exact stedman_facts. Qed.
+
+(* the language: a block is a non-empty sequence of tokens - a cross written x or - with ANY number
+   of dots on either side, or a non-empty group of bell symbols 1..9,0,E,T,A-D, two adjacent groups
+   separated by one dot - optionally marked '&' or '+'.  convert_pn on the rendering of ANY such
+   block gives exactly its changes (palindromic iff marked '&'): every length, every stage. *)
+Theorem C02_grammar_single_block : forall b, wf_block b ->
+  convert_pn (render_block b) = Ok (block_changes false b).
+Proof. exact convert_pn_single. Qed.
+
+(* two or more blocks joined by commas: each palindromic unless marked '+', concatenated in order *)
+Theorem C02_grammar_comma_blocks : forall b1 b2 bs, Forall wf_block (b1 :: b2 :: bs) ->
+  convert_pn (join_commas (map render_block (b1 :: b2 :: bs)))
+  = Ok (concat (map (block_changes true) (b1 :: b2 :: bs))).
+Proof. exact convert_pn_commas. Qed.
+
+(* the grammar's reading of a real string, and the hypotheses are satisfiable *)
+Example C02_grammar_example :
+  let x := RCross false 0 0 in let p := RPlaces in
+  join_commas (map render_block [(MNone, [x; p [1;6]; x; p [1;6]; x; p [1;6]]); (MNone, [p [1;2]])])
+  = pb_minor_text      (* the string "x16x16x16,12" *)
+  /\ convert_pn pb_minor_text
+     = Ok [[]; [1;6]; []; [1;6]; []; [1;6]; []; [1;6]; []; [1;6]; []; [1;2]].
+Proof. exact pb_minor_grammar. Qed.
